@@ -105,7 +105,8 @@ enum Partner {
 }
 
 /// a coroutine parks on a fresh Blocker (what every primitive does)
-fn fresh_blocker(e: &'static Engine, workers: usize, timeout: bool, ignore_cancel: bool, partner: Partner) {
+fn fresh_blocker(e: &'static Engine, workers: usize, timeout_ns: u64, ignore_cancel: bool, partner: Partner) {
+    let timeout = timeout_ns > 0;
     rt_init(workers);
     e.begin();
     let c = go!(move || {
@@ -113,7 +114,7 @@ fn fresh_blocker(e: &'static Engine, workers: usize, timeout: bool, ignore_cance
         *SLOT.lock().unwrap() = Some(b.clone());
         READY.store(true, Ordering::SeqCst);
         let t0 = may::verif::now();
-        let r = match std::panic::catch_unwind(std::panic::AssertUnwindSafe(|| b.park(if timeout { Some(Duration::from_millis(1)) } else { None }))) {
+        let r = match std::panic::catch_unwind(std::panic::AssertUnwindSafe(|| b.park(if timeout { Some(Duration::from_nanos(timeout_ns)) } else { None }))) {
             Ok(r) => r,
             Err(p) => {
                 // park itself raised a panic (the Cancel panic unless ignore_cancel is set)
@@ -155,8 +156,8 @@ fn fresh_blocker(e: &'static Engine, workers: usize, timeout: bool, ignore_cance
             "ok"
         }
         Ok(1) => {
-            if !timeout || dt < MS {
-                e.fail("timeout_early", &format!("fresh Blocker park reported Timeout after {} ns (timeout set: {})", dt, timeout));
+            if !timeout || dt < timeout_ns {
+                e.fail("timeout_early", &format!("fresh Blocker park reported Timeout after {} ns (timeout: {} ns)", dt, timeout_ns));
             }
             if matches!(partner, Partner::Unpark | Partner::UnparkAndCancel) && !e.t2_used() {
                 e.fail("unpark_lost", "park reported Timeout although unpark was called at virtual time 0");
@@ -227,11 +228,15 @@ pub fn build(quick: bool) -> Vec<Scenario> {
                 continue;
             }
             let s = sc(format!("co.fresh.{}{}.{:?}.w{}", if timeout { "t1ms" } else { "notimeout" }, if ign { ".ignore_cancel" } else { "" }, partner, w), move |e| {
-                fresh_blocker(e, w, timeout, ign, partner)
+                fresh_blocker(e, w, if timeout { MS } else { 0 }, ign, partner)
             })
             .bound(d)
             .deepen(dmax, budget);
             v.push(if timeout { s.t2() } else { s });
+        }
+        // timeouts that are not a whole number of milliseconds: never reported before the deadline
+        for ns in [1_500_000u64, 999_999, 1_000_001, 1] {
+            v.push(sc(format!("co.fresh.t{}ns.Nothing.w{}", ns, w), move |e| fresh_blocker(e, w, ns, false, Partner::Nothing)).bound(1).t2());
         }
     }
     v
